@@ -284,3 +284,131 @@ def slim(c):
     d = {k: v for k, v in c.items() if k != "oracle"}
     s = json.dumps(d)
     return d if len(s) < 3000 else {"k": c["k"], "api": c["api"], "exp": c.get("exp"), "truncated": s[:3000]}
+
+# ================================================================ C16
+C16_HEAD = ("From Coq Require Import List NArith Bool Init.Byte. Import ListNotations. From Crux Require Import HttpResp.Resp HttpResp.Mw.\n"
+            "Open Scope N_scope.\n")
+API16 = {0: "ACapSend", 1: "ACmdBuild", 2: "ACapAsync"}
+
+def side_term(s):
+    return "Side %s %s" % (bl(s[0]), "None" if s[1] is None else "(Some %d)" % s[1])
+
+def mw_term(m):
+    t = m["t"]
+    if t == "pass": return "MPass %d %s" % (m["id"], "None" if m["add"] is None else "(Some (Hd %s %s))" % (bl(m["add"][0]), bl(m["add"][1])))
+    if t == "short": return "MShort %d %s" % (m["id"], result_term(m["result"]))
+    if t == "issue": return "MIssue %d %s %s" % (m["id"], lst(side_term(s) for s in m["pre"]), lst(side_term(s) for s in m["post"]))
+    if t == "retry": return "MRetry %d %d" % (m["id"], m["n"])
+    if t == "redirect": return "MRedirect %d" % m["attempts"]
+    raise ValueError(t)
+
+def request_term(r):
+    return "(Rq %s %s %s %s)" % (bl(r["method"]), bl(r["url"]), lst("Hd %s %s" % (bl(n), bl(v)) for n, v in r["headers"]), bl(r["body"]))
+
+def mark_term(m):
+    if m["m"] == "enter": return "Enter %d" % m["id"]
+    if m["m"] == "exit": return "Exit %d" % m["id"]
+    return "Shell %s" % request_term(m)
+
+def parse_term(p):
+    if "abs" in p: return "(UAbs %s)" % bl(p["abs"])
+    if "rel" in p: return "URel"
+    return "(UErr %s)" % bl(p["err"])
+
+def trace16_term(im):
+    panicked = im["panicked"] or bool(im.get("anomalies"))
+    return "(T16 %s %s %s)" % (lst(mark_term(m) for m in im["log"]), lst(outcome_term(e) for e in im["events"]), "true" if panicked else "false")
+
+def c16_case_term(d):
+    c, o = d["case"], d["oracle"]
+    return "C16 %s %s %s %s %s %s %s %s %s" % (
+        API16[c["api"]], lst(mw_term(m) for m in c["client_stack"]), lst(mw_term(m) for m in c["req_stack"]), request_term(c["request"]),
+        lst("Ge %s %s" % (bl(u), result_term(r)) for u, r in c["graph"]), result_term(c["default"]),
+        lst("Pe %s %s" % (bl(l), parse_term(p)) for l, p in o["parse"]),
+        lst("Je %s %s %s" % (bl(u), bl(l), sum_term(r, "ok", "err")) for u, l, r in o["join"]),
+        trace16_term(d["impl"]))
+
+def c16_text(cases):
+    global INTERN
+    INTERN = Interner()
+    acc = []
+    for d in cases: collect_hex({k: d[k] for k in ("case", "oracle", "impl")}, acc)
+    cnt = collections.Counter(h for h in acc if len(h) >= 8)
+    for h, n in cnt.items():
+        if n >= 2: INTERN.define(h)
+    body = "Definition cs : list case16 := [\n" + ";\n".join(c16_case_term(d) for d in cases) + "\n]."
+    return "\n".join([C16_HEAD] + INTERN.defs + [body, "Eval vm_compute in (verdicts16 cs)."])
+
+def classify_c16(d):
+    c = d["case"]
+    kinds = sorted({m["t"] for m in c["client_stack"] + c["req_stack"]})
+    log = d["impl"]["log"]
+    nshell = sum(1 for m in log if m["m"] == "shell")
+    return "api%d %s shells=%s" % (c["api"], "+".join(kinds) or "none", nshell if nshell < 6 else "6+")
+
+def check_C16(run, replay=None):
+    tier = run.tier
+    count = 1200 if tier == "quick" else 40000
+    C.proof_stage(run, "C16")
+    ok, log, bins = C.harness_build(["httpresp_c16"])
+    run.oblige("harness-build httpresp_c16 (dev) from the repository working tree", ok, log[-1500:])
+    cases = []
+    if ok:
+        rc, out = C.sh("%s %d %d" % (bins["httpresp_c16"], run.seed, count), timeout=1500)
+        if rc != 0:
+            run.oblige("harness-run httpresp_c16", False, out[-1500:])
+        else:
+            cases = [json.loads(l) for l in out.splitlines() if l.startswith("{")]
+    corpus = load_corpus("c16")
+    if replay:
+        cases = json.load(open(replay)).get("cases", []); corpus = []
+    allc = corpus + cases
+    nsh = 16 if len(allc) > 200 else 4
+    shards = [s for s in (allc[i::nsh] for i in range(nsh)) if s]
+    res = C.run_case_files("C16", [c16_text(s) for s in shards])
+    dist = collections.Counter(); verd = collections.Counter()
+    bad_model, bad_ok, gen_bugs = [], [], []
+    for s, (okk, vals, raw) in zip(shards, res):
+        if not okk or len(vals) != 1 or len(vals[0]) != len(s):
+            run.oblige("case-evaluation shard", False, raw[-800:]); continue
+        for d, v in zip(s, vals[0]):
+            dist[classify_c16(d)] += 1; verd[v] += 1
+            c = d["case"]
+            nontrivial = bool(c["client_stack"] or c["req_stack"])
+            run.note_case(json.dumps(c, sort_keys=True), nontrivial=nontrivial)
+            run.cov["traces_validated_against_impl"] += 1
+            if v == 1: bad_model.append(d)
+            elif v == 2: bad_ok.append(d)
+            elif v == 9: gen_bugs.append(d)
+    run.oblige("correspondence: model of the code = implementation (log of marks and shell requests, final event) on %d cases" % len(allc),
+               not bad_model and not gen_bugs, json.dumps([slim16(d) for d in (bad_model + gen_bugs)[:3]]))
+    run.oblige("C16_ok (implementation trace = reference semantics) on every case", not bad_ok, json.dumps([slim16(d) for d in bad_ok[:3]]))
+    how = ("./check C16 --replay <this file>; each case: api 0=capability send 1=command build 2=capability send_async; client_stack/req_stack = "
+           "middleware descriptions (pass/short/issue/retry/redirect); graph = the shell as url -> answer (hex byte strings), default otherwise; "
+           "impl.log = enter/exit marks and the requests the shell received, in order; impl.events = what the app got")
+    if bad_ok:
+        bad_ok.sort(key=lambda d: len(json.dumps(d["case"])))
+        run.violation("C16_ok", {"property": "C16", "what": "middleware order / redirect behaviour differs from the reference semantics",
+                                 "cases": bad_ok[:10], "how_to_replay": how})
+    elif bad_model or gen_bugs:
+        both = sorted(bad_model + gen_bugs, key=lambda d: len(json.dumps(d["case"])))
+        run.violation("correspondence", {"property": "C16", "what": "model of the code and implementation differ (or a generated case is malformed); C16_ok holds on all implementation traces seen",
+                                         "cases": both[:10], "broken": "correspondence HttpResp.Mw.run_impl vs crux_http", "how_to_replay": how}, no_input=True)
+    run.cov["rule"] = ("generated: API {capability send, command build, capability send_async} x client stack (0..5, through the cfg(crux_verif) hook) x request stack (0..5) of "
+                       "pass-through (optionally adding a header) / short-circuit / request-issuing (side GETs, optionally with Redirect) / retrying / Redirect(attempts in 0,1,2,3,4,5,8,255) "
+                       "x request (7 methods, headers, body or none) x shell = redirect graph built by walking: absolute, relative (18 forms incl. ../, ?q, #f, //host), loops, self-loops, "
+                       "missing Location, two Location headers, invalid and non-ASCII Location (malformed stream, every fifth case), 3xx that are not redirects, errors, unknown status; "
+                       "plus the two-relative-redirects witness in every API; a case is counted once per distinct description and is non-trivial when some middleware is installed")
+    run.cov["samples"] = [slim16(d) for d in cases[:2] + cases[-2:]]
+    run.extra["distribution"] = {"by_api_kinds_shells": dict(dist), "verdicts": {str(k): v for k, v in verd.items()}, "corpus_cases": len(corpus)}
+    run.assumptions += [
+        "oracles (Section variables of the theorems; tables in the cases): Url::parse (absolute / relative-without-base / other error) and Url::join of the url crate, computed by the harness with the crate itself; the shell is a function of the request (here: of its URL)",
+        "user middleware is represented by the four kinds of the model's language; arbitrary middleware code (state, timing, reading response bodies) is outside the theorems",
+        "Request::clone dropping the body, header map behaviour and from_protocol are modelled as in C15 and tied by correspondence"]
+    run.trusted += ["hand-written model coq/HttpResp/Mw.v (+ Resp.v)", "harness/src/bin/httpresp_c16.rs (middleware built from descriptions, shell loop, url-crate oracles)",
+                    "engines/httpresp_eng.py (JSON -> Gallina printer) and lib/common.py parser of coqc output"]
+
+def slim16(d):
+    x = {"case": d["case"], "impl": d["impl"]}
+    s = json.dumps(x)
+    return x if len(s) < 4000 else {"truncated": s[:4000]}
